@@ -70,7 +70,26 @@ def _raisers(ctx):
     return can
 
 
+def _held_values_are_roots(ctx, rep):
+    """Values kept in Python locals across an expression parse (DEF FN's saved variables and arguments) must be
+    registered as collector roots: shared with C20, whose rule module owns the analysis."""
+    from . import c20
+    sub = type(rep)('C20')
+    c20.check(ctx, sub)
+    n = 0
+    for rule, (tot, ok) in sub.by_rule.items():
+        if rule.startswith('gc-roots'):
+            n += tot
+    for f in sub.findings:
+        if f.rule.startswith('gc-roots'):
+            rep.ob('roots.values-held-across-a-parse', f.construct, False, f.detail or 'a string held outside the four root holders is not seen by the collector', f.where)
+    rep.ob('roots.values-held-across-a-parse', 'DEF FN registers the values it holds across the body parse in temp_values and releases them (%d obligations of C20)' % n,
+           not [e for e in sub.errors if 'gc-roots' in e], '; '.join(sub.errors))
+    rep.floor('roots.values-held-across-a-parse', n, 4, 'obligations')
+
+
 def check(ctx, rep):
+    _held_values_are_roots(ctx, rep)
     # ---- (i) ownership -------------------------------------------------------------
     fe = FieldEffects(ctx)
     n = 0
